@@ -84,6 +84,12 @@ func (m *CPU) Run(app risc.Application) (int, error) {
 		}
 
 		if ret {
+			// Complete the results still queued behind the return
+			for !m.writeUnit.isEmpty() || !m.writeBus.IsEmpty() {
+				m.ctx.VerifTick()
+				cycle++
+				m.writeUnit.cycle(m.ctx, m.writeBus)
+			}
 			break
 		}
 		if flush {
